@@ -5,6 +5,7 @@ import (
 	"go/ast"
 	"go/token"
 	"go/types"
+	"strings"
 
 	"golang.org/x/tools/go/cfg"
 	"golang.org/x/tools/go/packages"
@@ -63,9 +64,10 @@ import (
 // fillPathSegments) is accepted.
 func init() {
 	register(&Rule{
-		Name:  "BLOCKSCAN",
-		IR:    "cfg",
-		Props: []string{"C17"},
+		Name:    "BLOCKSCAN",
+		IR:      "cfg",
+		Props:   []string{"C17", "C30"},
+		FloorBy: map[string]int{"C17": 14, "C30": 2},
 		// findWithoutCache, hasFeatureWithID, FindLocationByID, findPathsByPoint, FindAreasByPoint x3,
 		// fillPathSegments, isGraphNode, FindRelationsByFeature, fillRelationsFrom{Point,Path,Area,Relation}
 		Floor: 14,
@@ -73,8 +75,74 @@ func init() {
 			"only behind the success edge of a lookup in that block, because several merged blocks may share a namespace; and a give-up " +
 			"(break, jump, return of the not-found value) is not control dependent on a test that rejects the found record (kind, zero/empty test) " +
 			"unless data of that record was used for the result on the way",
-		Run: runBlockscan,
+		// The scans that the compact world's Traverse runs through (found by static reachability from
+		// the methods that return b6.Segments) also decide what the shortest-path search can see: C30.
+		Run: func(c *Ctx) []Obligation {
+			out := runBlockscan(c)
+			reach := traverseReach(c)
+			for i := range out {
+				fn := out[i].Key
+				if j := strings.LastIndex(fn, "#"); j >= 0 {
+					fn = fn[:j]
+				}
+				if reach[fn] {
+					out[i].Props = []string{"C17", "C30"}
+				} else {
+					out[i].Props = []string{"C17"}
+				}
+			}
+			return out
+		},
 	})
+}
+
+// traverseReach returns the names (as in obligation keys) of the functions of ingest/compact that
+// are statically reachable from a method whose result is b6.Segments.
+func traverseReach(c *Ctx) map[string]bool {
+	reach := map[string]bool{}
+	p := c.Pkg("ingest/compact")
+	if p == nil {
+		return reach
+	}
+	info := p.TypesInfo
+	decls := map[*types.Func]*ast.FuncDecl{}
+	for _, fd := range c.FuncDecls(p) {
+		if obj, _ := info.Defs[fd.Name].(*types.Func); obj != nil {
+			decls[obj] = fd
+		}
+	}
+	var work []*types.Func
+	for obj := range decls {
+		sig := obj.Type().(*types.Signature)
+		if sig.Results().Len() == 1 {
+			if n := namedOf(sig.Results().At(0).Type()); n != nil && n.Obj().Name() == "Segments" && n.Obj().Pkg() != nil && n.Obj().Pkg().Path() == ModulePath {
+				work = append(work, obj)
+			}
+		}
+	}
+	seen := map[*types.Func]bool{}
+	for len(work) > 0 {
+		f := work[len(work)-1]
+		work = work[:len(work)-1]
+		if seen[f] {
+			continue
+		}
+		seen[f] = true
+		fd := decls[f]
+		if fd == nil || fd.Body == nil {
+			continue
+		}
+		reach[c.FuncName(p, fd)] = true
+		ast.Inspect(fd.Body, func(n ast.Node) bool {
+			if call, ok := n.(*ast.CallExpr); ok {
+				if g := calleeFunc(info, call); g != nil && decls[g] != nil {
+					work = append(work, g)
+				}
+			}
+			return true
+		})
+	}
+	return reach
 }
 
 // hCompact describes the anchors of the compact world shared by BLOCKSCAN and POINTKIND.
